@@ -53,6 +53,8 @@ def base_cfg(draw, limits="loose", multi_strategy=True, tx_limits=(5000,), custo
     cfg = {"market": spec, "strategies": strategies, "clients": clients, "config": {}}
     if draw(st.integers(0, 2)) == 0:
         cfg["config"] = {"place_latency": 0.0, "cancel_latency": 0.0, "update_latency": 0.0, "replace_latency": 0.0}
+    if draw(st.integers(0, 3)) == 0:
+        cfg["config"] = dict(cfg["config"], simulated_strategy_isolation=False)  # the per-instance matching path
     if custom_control and draw(st.integers(0, 2)) == 0:
         cfg["custom_control"] = {"kinds": draw(st.sampled_from([["cancel"], ["update", "replace"], ["place", "cancel", "update", "replace"]])),
                                  "parity": draw(st.integers(0, 1))}
